@@ -13,7 +13,7 @@ from ..bridge import close, mat, ring, vec
 from ..common import Snap
 from ..tlc import TLCError
 
-INV = ["SparseIsDefinition", "HermConjIsAdjoint", "IsHermitianIffMatrixIs", "MatrixPauliRoundTrip", "ReverseIsBitReversal", "ExpectationIsQuadraticForm"]
+INV = ["SparseIsDefinition", "HermConjIsAdjoint", "IsHermitianIffMatrixIs", "MatrixPauliRoundTrip", "ReverseIsBitReversal", "ExpectationIsQuadraticForm", "TermCircuitIsString"]
 
 
 def state_k(k, nq):
@@ -48,7 +48,22 @@ def check_case(ctx, c, nq):
     desc = "%s(%s%s)" % (op, pc.show(c["x"]), ", %d" % c["k"] if op in ("sparse", "reverse", "expect", "frommatrix") else "")
     snap = Snap([x])
     try:
-        if op == "sparse":
+        if op == "circuit":
+            from .. import circ_common as cc_
+            from orquestra.quantum.operators import PauliSum
+
+            term = x.terms[0] if isinstance(x, PauliSum) else x
+            circ = term.circuit
+            want = mat(c["m"])
+            if circ.n_qubits != c["k"]:
+                out.append(("circuit:width", "%s: the term's circuit has %d qubits, the term %d" % (desc, circ.n_qubits, c["k"])))
+            else:
+                got = cc_.to_np(circ.to_unitary())
+                if not close(got, want):
+                    out.append(("circuit:matrix", "%s: the term's circuit does not act as its Pauli string" % desc))
+            if term.circuit is not circ or [str(o) for o in term.circuit.operations] != [str(o) for o in circ.operations]:
+                out.append(("circuit:unstable", "%s: asking for the circuit twice gives different circuits" % desc))
+        elif op == "sparse":
             n = c["k"]
             got = get_sparse_operator(x, n).toarray()
             want = mat(c["m"])
@@ -113,11 +128,11 @@ def check_case(ctx, c, nq):
 
 def run(ctx):
     quick = ctx.tier == "quick"
-    allops = '{"conj","isherm","sparse","reverse","expect"}'
+    allops = '{"conj","isherm","sparse","reverse","expect","circuit"}'
     runs = [
         ("ops2", dict(NQ=2, Pool="<-PoolC09_2", Ops=allops, Depth=2, ExpandMod=1, Emitting=True)),
         ("frommatrix2", dict(NQ=2, Pool="{S(<<>>)}", Ops='{"frommatrix"}', Depth=2, ExpandMod=1, Emitting=True)),
-        ("ops3", dict(NQ=3, Pool="<-PoolC09_3", Ops='{"conj","isherm","reverse","expect"}' if quick else allops, Depth=2, ExpandMod=1, Emitting=True)),
+        ("ops3", dict(NQ=3, Pool="<-PoolC09_3", Ops='{"conj","isherm","reverse","expect","circuit"}' if quick else allops, Depth=2, ExpandMod=1, Emitting=True)),
     ]
     if not quick:
         runs.append(("frommatrix3", dict(NQ=3, Pool="{S(<<>>)}", Ops='{"frommatrix"}', Depth=2, ExpandMod=1, Emitting=True)))
